@@ -14,7 +14,7 @@ pub fn meta(tier: &str) -> CheckMeta {
         rule: "(a) equivalence, E-box: for every zoo grammar and every accepted grammar of the C03 families, parsers generated with OptLevel::MergeStates and OptLevel::empty() are compared on every token string of the C03 box (families) / every document of seeds + lexeme strings (zoo): same has_error, and identical visible trees whenever error-free. (b) determinism: every one of those grammars is generated in three separate processes (different pids, ASLR) through generate_parser_for_grammar and through the CLI path generate_parser_in_directory; parser.c and node-types.json must be byte-identical across processes and paths. Non-trivial = (grammar, string) pairs accepted by both parsers (a) + grammars compared across processes (b).",
         assumptions: vec!["(b) draws three processes; process-level hash seeds are not enumerable. The generator uses FxHashMap (unseeded) and no threads today.".into()],
         exhaustive: false,
-        bounds: json!({"tier": tier, "family_bounds": "as C03", "processes": 3}),
+        bounds: json!({"tier": tier, "family_bounds": "as C03", "g5_grammars": if tier == "quick" { "78 of 156 (every second)" } else { "all 156" }, "g5_inputs": "4 prefixes x every body over {a,b,c,space,z} up to 4 characters", "processes": 3}),
     }
 }
 
@@ -65,6 +65,32 @@ pub fn genhash_main(list_file: &str) {
     let _ = std::fs::remove_dir_all(&dir);
 }
 
+/// G5: one nonterminal reduced in two contexts whose look-ahead sets are {T1, T2} and {T2}, for every ordered pair of
+/// distinct tokens of the C14 menu (strings and patterns that match overlapping strings): whether the two states with
+/// the same core may be merged depends on the lexical conflicts between T1 and T2, in both directions.
+///   source -> 'x' item (T1 'z' | T2) | 'y' item T2        item -> '#' '#'
+/// (with a one-token item the generator never builds two states for the end of `item`.)
+fn g5() -> Vec<(String, crate::gram::G)> {
+    use crate::gram::*;
+    let m = crate::checks::c14::menu();
+    let mut out = vec![];
+    for (i, a) in m.iter().enumerate() { for (j, b) in m.iter().enumerate() {
+        if i == j { continue; }
+        let tok = |t: &(&'static str, bool)| if t.1 { s(t.0) } else { pat(t.0) };
+        let g = G::new(&format!("g5_{}_{}", i, j))
+            .rule("source", choice(vec![
+                seq(vec![s("x"), sym("item"), choice(vec![seq(vec![sym("t1"), s("z")]), sym("t2")])]),
+                seq(vec![s("y"), sym("item"), sym("t2")]),
+            ]))
+            .rule("item", seq(vec![s("#"), s("#")]))
+            .rule("t1", tok(a))
+            .rule("t2", tok(b))
+            .extras(vec![pat(" ")]);
+        out.push((g.name.clone(), g));
+    } }
+    out
+}
+
 fn zoo_specs() -> Vec<(String, LangSpec, Vec<Vec<u8>>)> {
     crate::zoo::core_zoo().into_iter().chain(std::iter::once(crate::zoo::tmpl())).map(|z| { let docs = crate::docs::docs(&z, 3); (z.name.to_string(), z.spec.clone(), docs) }).collect()
 }
@@ -90,6 +116,37 @@ pub fn worker(ctx: &Ctx, res: &mut ShardResult) {
         let _ = std::fs::remove_file(&unmerged.so_path);
         if res.too_many() { return; }
         if ctx.out_of_time() { res.caps.push("wall-clock budget reached in equivalence part".into()); break; }
+    }
+    // (a) equivalence on the lexical-conflict family G5: inputs <x|y> '#' body, body over {a, b, c, ' ', z} up to 4 characters
+    let g5s = g5();
+    let g5cap = if ctx.mini() { 6 } else if ctx.quick() { 78 } else { g5s.len() };
+    let step = (g5s.len() as f64 / g5cap as f64).max(1.0);
+    let chosen: Vec<usize> = (0..g5cap).map(|k| (k as f64 * step) as usize).filter(|&k| k < g5s.len()).collect();
+    for (ci, &gi) in chosen.iter().enumerate() {
+        if !ctx.mine(ci + 3) { continue; }
+        let (name, g) = &g5s[gi];
+        crate::case!("{}", json!({"part": "equivalence", "grammar_id": name}));
+        let spec = LangSpec { name: name.clone(), grammar_json: g.to_json(), scanner_c: None };
+        let Ok(merged) = lang::build(&spec, OptLevel::default()) else { res.count("g5_rejected_by_generator", 1); continue };
+        let unmerged = match lang::build(&spec, OptLevel::empty()) { Ok(l) => l, Err(e) => { res.violation("unmerged-generation-fails", format!("{}: {}", name, e), json!({"grammar_id": name})); continue; } };
+        res.states += 1;
+        res.count("g5_grammars", 1);
+        mine.push(json!({"name": name, "grammar": g.to_value()}));
+        let body = ["a", "b", "c", " ", "z"];
+        for pre in ["x##", "y##", "x # #", "y## "] {
+            for len in 0..=4usize {
+                let mut run = |ix: &[usize]| {
+                    let mut text = pre.to_string();
+                    for &i in ix { text.push_str(body[i]); }
+                    compare_parsers(name, &merged.language, &unmerged.language, text.as_bytes(), res, json!({"part": "equivalence", "grammar_id": name, "text": text}));
+                };
+                if len == 0 { run(&[]); } else { crate::util::for_each_seq(body.len(), len, |ix| run(ix)); }
+            }
+        }
+        let _ = std::fs::remove_file(&merged.so_path);
+        let _ = std::fs::remove_file(&unmerged.so_path);
+        if res.too_many() { return; }
+        if ctx.out_of_time() { res.caps.push("wall-clock budget reached in equivalence part (G5)".into()); break; }
     }
     // (a) equivalence on the zoo
     for (zi, (name, spec, docs)) in zoo_specs().into_iter().enumerate() {
